@@ -295,13 +295,14 @@ PROPS["C01"] = {
             "are lifted by translator::x86::X86 and run natively through the mode-equivalence map (same bytes with an address-size prefix; 0x40-0x4f "
             "mapped to FF /0,/1). Non-trivial = the instruction changed a compared output; distinct = (mode, form, operand size, reg/mem).",
     "level_text": "Sampled (encoding, state) pairs per instruction form against the processor itself; architecturally undefined flags and results are masked per the SDM; native faults (SIGSEGV/SIGILL/divide error) are counted and not judged.",
-    "level_note": "the host runs only 64-bit code: 32-bit-mode lifting is compared through equivalent 64-bit encodings, and forms without one "
-                  "(stack-width instructions push/pop/call/ret/leave, indirect jmp/call, absolute disp32 addressing) are skipped in 32-bit mode; trusts x86native.rs (ptrace), liftexec.rs, refinterp.rs, refeval.rs",
+    "level_note": "the host runs only 64-bit code: 32-bit-mode lifting is compared through equivalent 64-bit encodings (absolute disp32 through the SIB no-base form); "
+                  "the forms without one (stack-width instructions push/pop/call/ret/leave and indirect jmp/call in 32-bit mode) are judged against a 100-line hand model "
+                  "of exactly those instructions (counter x86.hand_model_cases), which is weaker than the CPU; trusts x86native.rs (ptrace), liftexec.rs, refinterp.rs, refeval.rs",
     "assumptions": [
         "PF and AF are not modelled by falcon and are not compared",
         "flags and results the SDM leaves undefined (shift/rotate OF for counts other than 1, bsf/bsr on zero, mul/imul ZF/SF, 16-bit shld/shrd with count > 16, div flags) are masked",
         "a native divide error (quotient overflow) against a value in the IL is not judged: the architecture defines no register outcome",
-        "32-bit mode: only encodings whose semantics equal a 64-bit-mode encoding of the same bytes (plus 0x67) are compared",
+        "32-bit mode: encodings whose semantics equal a 64-bit-mode encoding (same bytes plus 0x67, FF /0,/1 for 0x40-0x4f, SIB form for absolute disp32) are compared with the CPU; push/pop/call/ret/leave/jmp r/m/call r/m with a hand model written from the SDM",
     ],
 }
 
